@@ -32,14 +32,15 @@ TRUSTED_BASE = ["Coq 8.16.1 kernel (coqc), vm_compute only",
                 "binary64 division/addition (round to nearest even) and glibc printf %.*f (exact decimal expansion, "
                 "ties to even) modelled in exact integer arithmetic; compared on every generated log case",
                 "ocaml/prelude.ml + ocaml/c09_driver.ml (number/escape conversion), harness/h_c09.cpp, vlib",
-                "g++ 12 -fsanitize=address,undefined; signed-integer-overflow and shift checks in recover mode for "
+                "g++ 12 -fsanitize=address,undefined; the signed-integer-overflow check in recover mode for "
                 "the harness translation unit so that the wrapped result is observed"]
 ASSUMPTIONS = ["process time zone pinned to TZ=UTC for the run: GetTimeAsStringMS(use_gm=false) and Tickval's operator<< "
                "go through localtime_r and print local time otherwise; the FIX field codecs use gmtime_r only "
                "(LocalMktDate is a plain date string, no zone arithmetic)",
-               "outside the property's range (malformed texts, tick counts beyond 2262) signed overflow / negative shifts "
-               "(undefined behaviour) wrap as on x86-64/gcc; UBSan reports them once per site and continues, the model "
-               "carries a flag separately; inside the range the theorems show no such operation is executed",
+               "outside the property's range (malformed texts, tick counts beyond 2262) signed overflow of the 64-bit "
+               "products (undefined behaviour) wraps as on x86-64/gcc; UBSan reports it once per site and continues, the model "
+               "carries a flag separately; inside the range the theorems show no such operation is executed; every other "
+               "UBSan/ASan check (shifts, bounds, memory) traps",
                "std::chrono clocks have nanosecond period (Linux libstdc++), time_t and long are 64 bit",
                "strings handed to the const char* constructors are NUL terminated blocks; reads past the NUL trap under ASan",
                "default floating point environment (round to nearest), SSE2 double arithmetic without excess precision"]
@@ -49,7 +50,8 @@ RULE = ("G: get_tm (gmtime_r) of EVERY day 1970-01-01..2099-12-31 against civil_
         "thorough = three on EVERY day (rotating: 9 consecutive days cover all 25) and all 25 on the special days; always "
         "the seconds around 2^31, random nanosecond instants, a few outside the range; "
         "P: valid texts of every field type (17/21 and 8/12 character forms, 6/8 MonthYear) plus malformed ones (wrong "
-        "length, non-digits, bytes >= 0x80, month 00/13/14, truncated); L: precisions 0..9 on instants with nsec in "
+        "length, a non-digit in EVERY position of every form, characters below '0' leading a field, bytes >= 0x80, month "
+        "00/13/14/99, out-of-range day/time digits, truncated) and a few texts shorter than what the decoders read; L: precisions 0..9 on instants with nsec in "
         "{0, 4*10^k, 5*10^k, 999999999-j, decimal ties, random} and second-of-minute in {0,58,59,random}; "
         "S: CALL SEQUENCES of the log renderer inside one harness process (it is specified as stateless): instants of the "
         "same minute with other seconds (ascending, descending, same), precisions mixed (9 then 0, 0 then 0, 3 then 0), both "
@@ -68,7 +70,7 @@ EPOCH = datetime.date(1970, 1, 1)
 
 def build(tier):
     exe = B.harness("h_c09", runtime=["f8utils.cpp", "modp_numtoa.c"],
-                    extra=["-fsanitize-recover=signed-integer-overflow,shift"])
+                    extra=["-fsanitize-recover=signed-integer-overflow"])
     # halt_on_error=0: the two recover-mode checks report and continue; all other checks are compiled
     # with -fno-sanitize-recover and still abort
     # no symbolizer: a trapping case (class "overrun") costs two process starts, not several seconds
@@ -213,41 +215,57 @@ def gen_P(rng, tier):
             cs.append(P("MY", txt, "valid-text"))
             cs.append(P("TS", txt + "-23:59:59.999", "valid-text"))
         cs.append(P("MY", "%04d02" % y, "valid-text"))
-    # malformed: mutate valid texts.  The month characters are left alone (a month outside 01..13 indexes
-    # outside time_to_epoch's table, which traps and costs a process restart: class "overrun" below)
-    m = 3000 if thorough else 400
+    # malformed: mutate valid texts (since da4ab8c no character can make the decoders trap)
+    m = 3000 if thorough else 500
     for i in range(m):
-        t = rng.randrange(0, 2 ** 31 * NS)
+        t = rng.randrange(0, DAYS * DAY_NS)
         k = rng.choice(("TS", "TS17", "TO", "TO8", "D", "M6"))
         kind = {"TS17": "TS", "TO8": "TO", "M6": "MY", "D": rng.choice(("DO", "LD", "MY"))}.get(k, k)
         b = bytearray(fmt(k, t).encode())
-        month_pos = (4, 5) if k in ("TS", "TS17", "D", "M6") else ()
-        free = [p for p in range(len(b)) if p not in month_pos]
-        mode = rng.randrange(6)
-        if mode == 0:       # one byte replaced
-            b[rng.choice(free)] = rng.choice((0x20, 0x2f, 0x3a, 0x3b, 0x41, 0x7f, 0x80, 0xff, 0x2d, 0x2e, 0x30, 0x39))
+        has_month = k in ("TS", "TS17", "D", "M6")
+        mode = rng.randrange(7)
+        if mode == 0:       # one byte replaced, any position
+            b[rng.randrange(len(b))] = rng.choice((0x20, 0x2f, 0x3a, 0x3b, 0x41, 0x7f, 0x80, 0xff, 0x2d, 0x2e, 0x30, 0x39, 0x01))
         elif mode == 1:     # extended (length no longer one of the accepted ones)
             b += bytes(rng.choice((0x30, 0x39, 0x5a, 0x2e)) for _ in range(rng.randrange(1, 5)))
-        elif mode == 2:     # month 12 / 13 (13 is inside the table: index 12)
-            if month_pos:
-                b[4:6] = rng.choice((b"01", b"12", b"13"))
+        elif mode == 2:     # month outside 01..12 (table index clamped by the code)
+            if has_month:
+                b[4:6] = rng.choice((b"00", b"13", b"14", b"19", b"99", b"12", b"01", b" 1", b"-1", b"/9", b"\xff\xff", b":0"))
         elif mode == 3:     # day / hour / minute / second out of range (no check in the code)
-            pos = rng.choice([p for p in free if p + 1 in free])
+            pos = rng.randrange(len(b) - 1)
             b[pos:pos + 2] = rng.choice((b"00", b"32", b"60", b"99", b"24"))
         elif mode == 4:     # several random bytes
             for _ in range(rng.randrange(1, 4)):
-                b[rng.choice(free)] = rng.randrange(1, 256)
-        else:               # truncated but still longer than what is read unconditionally
-            keep = {"TS": 17, "TS17": 16, "TO": 8, "TO8": 7, "D": 6, "M6": 6}[k]
+                b[rng.randrange(len(b))] = rng.randrange(1, 256)
+        elif mode == 5:     # truncated but not shorter than what is read unconditionally
+            keep = {"TS": 16, "TS17": 16, "TO": 7, "TO8": 7, "D": 5, "M6": 5}[k]
             b = b[:rng.randrange(keep, len(b) + 1)]
+        else:               # a character below '0' leading a field (negative intermediate value)
+            starts = {"TS": (0, 4, 6, 9, 12, 15, 18), "TS17": (0, 4, 6, 9, 12, 15), "TO": (0, 3, 6, 9), "TO8": (0, 3, 6),
+                      "D": (0, 4, 6), "M6": (0, 4)}[k]
+            b[rng.choice(starts)] = rng.choice((0x20, 0x2b, 0x2d, 0x2f, 0x01, 0x80, 0xff))
         if bytes(b) in (b"", b"now") or 0 in b:
             continue
         cs.append(P(kind, bytes(b), "malformed-text"))
+    # every position of every form with a non-digit, and every out-of-table month
+    if True:
+        t = day_of(2024, 2, 29) * DAY_NS + 45296789 * 10 ** 6
+        for k in ("TS", "TS17", "TO", "TO8", "D", "M6"):
+            kind = {"TS17": "TS", "TO8": "TO", "M6": "MY", "D": "DO"}.get(k, k)
+            base = fmt(k, t).encode()
+            for pos in range(len(base)):
+                for ch in ((0x2f, 0x3a, 0x20, 0xff) if thorough else (rng.choice((0x2f, 0x20, 0x2d, 0x01)), rng.choice((0x3a, 0x41, 0xff, 0x80)))):
+                    b = bytearray(base)
+                    b[pos] = ch
+                    cs.append(P(kind, bytes(b), "malformed-text"))
+            if k in ("TS", "TS17", "D", "M6"):
+                for mm in (b"00", b"13", b"14", b"99"):
+                    b = bytearray(base)
+                    b[4:6] = mm
+                    cs.append(P(kind, bytes(b), "malformed-month"))
     # a handful that make the parser read outside the text (each one costs a process restart)
-    # (chosen so that no negative intermediate value is shifted before the stray read: the sanitizer
-    # summary then names the overrun and not the recoverable shift report)
-    overruns = (("TS", "20140101-10:00"), ("TO", "10:00"), ("DO", "9"), ("TS", "20141401-10:00:00"), ("DO", "20140001"),
-                ("MY", "201499"), ("TS", "20140101-10"), ("TO", "10"), ("MY", "9"), ("LD", "99"), ("LD", "20141901"))
+    overruns = (("TS", "2014"), ("TO", "10:00"), ("DO", "9"), ("TS", "20140101-10:00"), ("MY", "2014"), ("LD", "99"),
+                ("TS", "20140101-10"), ("TO", "10"), ("MY", "9"), ("TS", "20140101-10:00:"), ("TO", "10:00:"))
     for kind, txt in (overruns if thorough else overruns[:6]):
         cs.append(P(kind, txt, "overrun"))
     return cs
@@ -400,7 +418,16 @@ def c_log_carry(case, r, m):
     return 1 <= d <= 8 and secs % 60 == 59 and 2 * n + 10 ** (9 - d) >= 2 * 10 ** 9
 
 
-CLASSIFIERS = {"y2038": c_y2038, "log-carry": c_log_carry}
+def c_short_text(case, r, m):
+    """negation of the hypothesis `min_text_len k <= length s` of c09_parse_total_partial"""
+    w = case.line.split()
+    if w[0] != "P":
+        return False
+    n = len(w[2]) // 2 if w[2] != "-" else 0
+    return 0 < n < {"TS": 16, "TO": 7}.get(w[1], 5)
+
+
+CLASSIFIERS = {"y2038": c_y2038, "log-carry": c_log_carry, "short-text": c_short_text}
 
 
 def extra_search(rng, seeds, tier):
